@@ -83,3 +83,9 @@ Proof. exact src_handle_up. Qed.
 Theorem c10_source_close : forall st,
   same_as (fst (ezsp_close st)) (snd (ezsp_close st)) st (py_EZSP_close_k (gabs st)).
 Proof. exact src_ezsp_close. Qed.
+
+(* after a reported failure a new command is refused at once, whatever else the batch carried *)
+Require Import BV.proofs.GatewayPos_proofs.
+Theorem c10_command_after_failure_refused : forall st l u, e_app_cb st = true -> In u l -> is_failure u ->
+  gstep (fst (gstep st (GBatch l))) GCommand = (fst (gstep st (GBatch l)), [GCmdRaise]).
+Proof. exact command_after_failure_refused. Qed.
